@@ -250,6 +250,20 @@ where
     jobs.push(Job::new(job_name::<U>("i/add_sub_unsigned"), move |ctx| {
         ctx.run("add_sub_unsigned", ctx.budget(q(QUICK), FACTOR), gen::pattern_pair(sh), i_add_sub_unsigned::<I>);
     }));
+    jobs.push(Job::new(job_name::<U>("sweep"), move |ctx| {
+        let full = ctx.tier() == vlib::Tier::Thorough;
+        // deterministic: a carry / borrow chain ending at EVERY bit position, and the signed edge products of powers of two
+        ctx.enumerate("add_sub_u", "position pairs for every bit position", position_pairs(sh, full), add_sub::<U>);
+        ctx.enumerate("add_sub_i", "position pairs for every bit position", position_pairs(sh, full), add_sub::<I>);
+        ctx.enumerate("carry_u", "position pairs x carry for every bit position", position_pairs(sh, full).flat_map(|(a, b)| [false, true].into_iter().map(move |c| (a.clone(), b.clone(), c))), carry_borrow::<U>);
+        ctx.enumerate("carry_i", "position pairs x carry for every bit position", position_pairs(sh, full).flat_map(|(a, b)| [false, true].into_iter().map(move |c| (a.clone(), b.clone(), c))), carry_borrow::<I>);
+        ctx.enumerate("mixed_u", "position pairs for every bit position", position_pairs(sh, full), u_add_signed::<U>);
+        ctx.enumerate("mixed_i", "position pairs for every bit position", position_pairs(sh, full), i_add_sub_unsigned::<I>);
+        ctx.enumerate("mid_u", "position pairs for every bit position", position_pairs(sh, full), absdiff_midpoint::<U>);
+        ctx.enumerate("mid_i", "position pairs for every bit position", position_pairs(sh, full), absdiff_midpoint::<I>);
+        ctx.enumerate("neg_u", "2^k - 1, 2^k, 2^k + 1, negations, complements for every k", position_values(sh, full), neg::<U>);
+        ctx.enumerate("neg_abs_i", "2^k - 1, 2^k, 2^k + 1, negations, complements for every k", position_values(sh, full), i_neg_abs::<I>);
+    }));
     jobs.push(Job::new(job_name::<U>("u/neg"), move |ctx| {
         ctx.run("neg", ctx.budget(q(QUICK / 2), FACTOR), gen::pattern(sh), neg::<U>);
     }));
@@ -297,7 +311,7 @@ fn main() {
     runner::main(
         Property {
             id: "C01",
-            rule: "Operands are W-bit patterns from a weighted union of constructive generators (uniform, 0/1 bit runs aligned to digit boundaries, extreme digits, boundary values, short values) with the second operand independent or derived from the first (a, -a, !a, a+-1, a+-2^k, shared top digits); each case evaluates every overflow mode (overflowing/checked/wrapping/saturating/strict/unchecked) of the operation against exact arithmetic in an independent reference integer. A case is NON-TRIVIAL when a carry/borrow propagates across at least one digit boundary, or the overflow flag is set, or the exact result is one of MIN-1, MIN, MAX, MAX+1 (for neg: low zero digits; for abs: negative operand). distinct = distinct (build profile, job, inputs) among non-trivial cases, by 64-bit hash. The 8-bit configuration is enumerated completely (see exhaustive_parts).",
+            rule: "Operands are W-bit patterns from a weighted union of constructive generators (uniform, 0/1 bit runs aligned to digit boundaries, extreme digits, boundary values, short values) with the second operand independent or derived from the first (a, -a, !a, a+-1, a+-2^k, shared top digits); each case evaluates every overflow mode (overflowing/checked/wrapping/saturating/strict/unchecked) of the operation against exact arithmetic in an independent reference integer. A case is NON-TRIVIAL when a carry/borrow propagates across at least one digit boundary, or the overflow flag is set, or the exact result is one of MIN-1, MIN, MAX, MAX+1 (for neg: low zero digits; for abs: negative operand). distinct = distinct (build profile, job, inputs) among non-trivial cases, by 64-bit hash. The 8-bit configuration is enumerated completely (see exhaustive_parts). A deterministic SWEEP additionally enumerates, per configuration, position-specific inputs (2^k - 1, 2^k, 2^k + 1 with their negations and complements; carry / borrow chains and power-of-two products ending at every bit position k; every shift / rotate amount; every bit index; every float exponent) - all positions on types up to 1088 bits, a sparse selection of a few hundred positions on wider types in the quick tier, all positions in the thorough tier.",
             assumptions: &[
                 "digits()/from_digits()/to_bits()/from_bits() are the trusted observation channel (their own contract is checked under C13)",
                 "reference integer Z (vlib::refint) is correct: self-tested against i128/u128 and python-generated vectors on every run",
